@@ -736,7 +736,7 @@ func (eng *Engine) newExec(opts ExecOpts) *FnExec {
 	return &FnExec{eng: eng, c: NewCtx(), counters: map[string]int{}, notes: map[string]bool{}, dropped: map[string]bool{},
 		famSort: map[string]*Sort{}, nilable: map[*Term]bool{}, opts: opts, private: map[*Term]privInfo{},
 		closures: map[*Term]*ssa.MakeClosure{}, deferArgs: map[*ssa.Defer][]Val{}, deferFn: map[*ssa.Defer]Val{},
-		usedContracts: map[string]*FuncContract{}, inlined: map[string]bool{}, strDecl: map[string]bool{}, specDone: map[string]bool{}}
+		usedContracts: map[string]*FuncContract{}, inlined: map[string]bool{}, strDecl: map[string]bool{}, specDone: map[string]bool{}, rangeMaps: map[*Term]rangeMap{}}
 }
 
 // VerifyFunc generates the obligations of fn against its contract (if any)
